@@ -71,42 +71,59 @@ func run(c *vk.Ctx) {
 	rts := routes()
 	prefix := []hx.Op{{K: hx.VCreate, I: "i", Cfg: &hx.IdxCfg{Metric: "euclidean", Prec: "float32", M: 2, EfC: 4, Maint: "custom"}}}
 	var n int64
-	for d := 1; d <= depth; d++ {
-		idx := make([]int, d)
-		for {
-			n++
-			if c.Mine() {
-				h := append([]hx.Op(nil), prefix...)
-				for _, j := range idx {
-					h = append(h, alpha[j])
-				}
-				// one route per history, rotating; every route for the full-depth histories in thorough
-				if c.Thorough() && d == depth-1 {
-					for _, rt := range rts {
-						rep.RunOne(append(append([]hx.Op(nil), h...), rt...), mode, "seq+route")
+	// Non-initial starts: the same enumeration (one level shallower) from states in which an edge
+	// already has a closed version older than the retention window's width — a vacuum whose cutoff
+	// falls between the creation and the deletion of a version is then one step away.
+	starts := [][]hx.Op{
+		nil,
+		{{K: hx.VLink, I: "i", ID: "a", ID2: "b", S: "r", W: 1}, {K: hx.Tick, N: 3e9 + 7}, {K: hx.VUnlink, I: "i", ID: "a", ID2: "b", S: "r"}},
+		{{K: hx.VLink, I: "i", ID: "a", ID2: "b", S: "r", S2: "q", W: 1, M: map[string]any{"p": 1.0}}, {K: hx.Tick, N: 3e9 + 7}, {K: hx.VLink, I: "i", ID: "a", ID2: "b", S: "r", S2: "q", W: 2}},
+	}
+	base := prefix
+	for si, st := range starts {
+		prefix := append(append([]hx.Op(nil), base...), st...)
+		depth := depth
+		if si > 0 {
+			depth--
+		}
+		for d := 1; d <= depth; d++ {
+			idx := make([]int, d)
+			for {
+				n++
+				if c.Mine() {
+					h := append([]hx.Op(nil), prefix...)
+					for _, j := range idx {
+						h = append(h, alpha[j])
 					}
-				} else {
-					rt := rts[int(n)%len(rts)]
-					rep.RunOne(append(h, rt...), mode, "seq+route")
+					// one route per history, rotating; every route for the full-depth histories in thorough
+					if c.Thorough() && d == depth-1 {
+						for _, rt := range rts {
+							rep.RunOne(append(append([]hx.Op(nil), h...), rt...), mode, "seq+route")
+						}
+					} else {
+						rt := rts[int(n)%len(rts)]
+						rep.RunOne(append(h, rt...), mode, "seq+route")
+					}
+					if c.TimeUp() {
+						return
+					}
 				}
-				if c.TimeUp() {
-					return
+				p := d - 1
+				for p >= 0 {
+					idx[p]++
+					if idx[p] < len(alpha) {
+						break
+					}
+					idx[p] = 0
+					p--
 				}
-			}
-			p := d - 1
-			for p >= 0 {
-				idx[p]++
-				if idx[p] < len(alpha) {
+				if p < 0 {
 					break
 				}
-				idx[p] = 0
-				p--
-			}
-			if p < 0 {
-				break
 			}
 		}
 	}
+	c.F.Extra["starts"] = len(starts)
 	c.F.Extra["depth"] = depth
 	c.F.Extra["alphabet"] = len(alpha)
 	c.F.Extra["routes"] = len(rts)
